@@ -359,7 +359,9 @@ pub fn run(tier: &str) -> i32 {
     let mut rep = Report::new("C04", tier);
     let g = Gen::standard(thorough);
     let b = bfs(&g, 3, if thorough { 200_000 } else { 60_000 });
-    let mut base: Vec<File> = vec![];
+    // (the hand-written pool first: a wall-clock cap then cuts the tail of the BFS universe only)
+    let mut base: Vec<File> = extra_pool();
+    let npool = base.len();
     if thorough {
         base.extend(b.levels.iter().flatten().cloned());
     } else {
@@ -370,8 +372,7 @@ pub fn run(tier: &str) -> i32 {
         let step = (l3.len() / 2500).max(1);
         base.extend(l3.iter().step_by(step).cloned());
     }
-    let small = b.levels[0].len() + b.levels[1].len();
-    base.extend(extra_pool());
+    let small = npool + b.levels[0].len() + b.levels[1].len();
     let mut docs: Vec<V> = if thorough { docs_quick() } else { docs_quick().into_iter().step_by(2).collect() };
     docs.extend(case_docs());
     let djs: Vec<String> = docs.iter().map(|d| d.json()).collect();
@@ -391,7 +392,7 @@ pub fn run(tier: &str) -> i32 {
                 compare(&bt, &bos[di], label, &gt, &go, map, dj, acc);
             }
             // depth 2 on the smallest programs: a second transformation applied to the transformed program
-            if k < small && k % 4 == 0 {
+            if k >= npool && k < small && k % 4 == 0 {
                 for (label2, gf2, map2) in transforms(gf).into_iter().step_by(3) {
                     let gt2 = print_file(&gf2);
                     // compose maps: new2 -> new1 -> old
